@@ -3,6 +3,7 @@
 Every enumerated window is run on the real model under a stepping style; the executed trace is recorded by an
 instance-level wrapper around `_perform_timestep` (harness side) and compared (a) against direct trace invariants and
 (b) element-wise against the reference calendar automaton of acmc/refmodels.py."""
+import copy
 import datetime as dt
 import itertools
 
@@ -18,7 +19,7 @@ from ..runner import empty_result
 PID = "C07"
 LEVEL = "model_checking"
 WITNESSES = ["pre_season_days", "season_jump", "off_season_days", "harvest_by_maturity", "harvest_by_death", "harvest_by_latest_date",
-             "end_cuts_season", "new_year_spanning_season", "multi_season", "thermal_maturity", "chunked_stepping", "start_after_planting", "natural_death", "converted_thermal_maturity_checked"]
+             "end_cuts_season", "new_year_spanning_season", "multi_season", "thermal_maturity", "chunked_stepping", "start_after_planting", "natural_death", "converted_thermal_maturity_checked", "crop_object_used_by_an_earlier_model"]
 NONTRIVIAL = ["season_jump", "off_season_days", "harvest_by_death", "harvest_by_latest_date", "end_cuts_season", "new_year_spanning_season",
               "thermal_maturity", "chunked_stepping", "start_after_planting"]
 
@@ -152,6 +153,14 @@ def scenarios(tier, seed=0):
                 sc = mk("05/01", 0, D(2001, 4, 29), D(2002, 8, 30) if not off else D(2001, 9, 30), off, thermal=True, word=word)
                 sc["gddmethod"] = meth
                 out.append(sc)
+    # a thermal crop WITHOUT a configured harvest date whose Crop object an earlier model used on warmer weather: nothing that model
+    # derived (a default harvest date) may end this run's seasons early
+    for off in (False, True):
+        for word, before in (("coolnights", "scorch"), ("mix", "hot")):
+            sc = mk("05/01", 0, D(2001, 4, 29), D(2002, 12, 30) if not off else D(2001, 12, 30), off, thermal=True, word=word)
+            sc["crop_used_before"] = before
+            sc["thermal_crop"] = "MaizeGDD"
+            out.append(sc)
     # planting / harvest dates written without zero padding ('5/1', '1/5', '5/12'): month first, whatever the day
     for off in (False, True):
         for planting, harvest in (("5/1", None), ("1/5", None), ("5/1", "5/12"), ("5/1", "6/2"), ("12/20", "1/9")):
@@ -258,7 +267,20 @@ def run(scn):
     phase = "build"
     try:
         with watchdog(120):
-            model = S.make_model(spec)
+            if scn.get("crop_used_before"):
+                # history: the user's Crop object was first given to a model on WARMER weather (shorter thermal season); the
+                # monitored model is built from the same Crop object
+                first = copy.deepcopy(spec)
+                first["weather"]["word"] = scn["crop_used_before"]
+                ent1 = S.make_entities(first)
+                m0 = S.make_model(first, ent1)
+                m0._initialize()
+                ent = S.make_entities(spec)
+                ent["crop"] = ent1["crop"]
+                model = S.make_model(spec, ent)
+                hit("crop_object_used_by_an_earlier_model")
+            else:
+                model = S.make_model(spec)
             phase = "init"
             model._initialize()
             phase = "step"
@@ -393,6 +415,24 @@ def run(scn):
             if not (abs(exp_m - maturity) <= 1e-9):
                 violate("converted-thermal-maturity", None, {"Maturity": maturity}, {"Maturity": exp_m, "seasons_averaged": len(sums), "calendar_maturity_day": mcd})
             maturity = exp_m
+        if scn["harvest"] is None and not scn.get("switch"):
+            # no harvest date configured: the default is the first season's days to thermal maturity (this run's weather) + 30 days
+            pm_, pd__ = (int(x) for x in scn["planting"].split("/"))
+            p1 = dt.datetime(start.year, pm_, pd__)
+            if p1 < start:
+                p1 = dt.datetime(start.year + 1, pm_, pd__)
+            cum_, L1 = 0.0, 0
+            try:
+                while cum_ <= maturity and L1 < 400:
+                    cum_ += thermal(p1 + dt.timedelta(days=L1))
+                    L1 += 1
+                hh = dt.datetime(1990, pm_, pd__) + dt.timedelta(days=L1 + 30)
+                exp_h = f"{hh.month}/{hh.day}"
+                if [int(x) for x in str(hmd).split("/")] != [hh.month, hh.day]:
+                    violate("default-latest-harvest-date", None, hmd, exp_h)
+                    hmd = exp_h
+            except KeyError:
+                pass    # the weather record ends before the first season matures: the documented rejection decides
         ref, plantings, harvests = calendar_reference(start, end, scn["planting"], hmd, n, scn["off"], maturity, thermal=thermal, death=inj.observed)
     else:
         L = scn["L"]
